@@ -84,12 +84,17 @@ CInit == /\ pe \in UNION {[1..n -> E] : n \in 1..MaxMol}
          /\ h = 1 /\ act = A("init", 0, 0, 0, 0) /\ res = [k |-> "ok"]
 Bounded == /\ N <= MaxMol /\ buffer <= 3 * MaxE
            /\ \A i \in 1..N : ke[i] <= 3 * MaxE
+\* one reaction update, named by its action record (shared by the model checker and the trace specification)
+Do(a) == CASE a.op = "on_wall" -> OnWall(a.i, a.p1)
+           [] a.op = "decompose" -> Decompose(a.i, a.p1, a.p2)
+           [] a.op = "intermolecular" -> Intermolecular(a.i, a.j, a.p1, a.p2)
+           [] a.op = "synthesis" -> Synthesis(a.i, a.j, a.p1)
+Acts == {A("on_wall", i, 0, p, 0) : i \in 1..N, p \in E}
+        \cup (IF N < MaxMol THEN {A("decompose", i, 0, p1, p2) : i \in 1..N, p1 \in E, p2 \in E} ELSE {})
+        \cup {A("intermolecular", x[1], x[2], p1, p2) : x \in {y \in (1..N) \X (1..N) : y[1] # y[2]}, p1 \in E, p2 \in E}
+        \cup {A("synthesis", x[1], x[2], p, 0) : x \in {y \in (1..N) \X (1..N) : y[1] # y[2]}, p \in E}
 CNext == \/ Prepare
-         \/ /\ h = 3
-            /\ \/ \E i \in 1..N, p \in E : OnWall(i, p)
-               \/ \E i \in 1..N, p1 \in E, p2 \in E : N < MaxMol /\ Decompose(i, p1, p2)
-               \/ \E i \in 1..N, j \in 1..N, p1 \in E, p2 \in E : i # j /\ Intermolecular(i, j, p1, p2)
-               \/ \E i \in 1..N, j \in 1..N, p \in E : i # j /\ Synthesis(i, j, p)
+         \/ /\ h = 3 /\ \E a \in Acts : Do(a)
 CSpec == CInit /\ [][CNext]_cvars
 
 ---------------------------------------------------------------------------
